@@ -12,7 +12,7 @@ func vData5(tag string, n int) []byte {
 
 func vLens() []int {
 	if vTier() == 1 {
-		return []int{0, 1, 2, 4, 8, 16, 33, 40, 53}
+		return []int{0, 1, 2, 4, 8, 12}
 	}
 	return []int{0, 1, 4, 8}
 }
@@ -48,7 +48,7 @@ func VH_bech32_error_detection() {
 	hrp := "bc"
 	lens := []int{1, 6}
 	if vTier() == 1 {
-		lens = []int{1, 2, 8, 16, 33, 53}
+		lens = []int{1, 2, 6, 8, 12}
 	}
 	n := lens[vNondetLen("n", len(lens)-1)]
 	data := vData5("data", n)
